@@ -80,6 +80,19 @@ const NumPerturbations = 11
 
 var longLens = []int{4090, 4095, 4096, 4097, 4100, 8191, 8192, 8193, 65536, 70000}
 
+// metadata comment blocks: ordinary ones, bare keywords, repeated and empty strategy lines, odd spacing and case
+var metaBlocks = [][]string{
+	{";name Some Name", ";author An Author", ";strategy does things"},
+	{";name Some Name", ";author An Author", ";strategy does things"},
+	{";name", ";author", ";strategy"},
+	{";strategy one", ";strategy two", ";strategy", ";name N", ";strategy three"},
+	{";name  spaced  name ", ";author\tTabbed", ";strategy ", ";strategy   "},
+	{";NAME Upper", ";Author Mixed", ";STRATEGY shout", ";name second name"},
+	{";strategy", ";strategy"},
+}
+
+var lastComments = []string{"; the end", "; the end", ";", ";strategy", ";name", ";author", ";strategy ", ";assert 1"}
+
 var PerturbNames = []string{"case", "blanks", "crlf", "comment-lines", "blank-lines", "trailing-comments", "metadata", "no-final-newline", "last-line-comment", "no-end", "long-lines"}
 
 func PerturbSetName(set int) string {
@@ -103,7 +116,8 @@ func Perturb(lines []string, set int, d Dialect, r Rand) string {
 		eol = "\r\n"
 	}
 	if set&PMeta != 0 {
-		out = append(out, ";redcode", ";name Some Name", ";author An Author", ";strategy does things")
+		out = append(out, ";redcode")
+		out = append(out, metaBlocks[r.Intn(len(metaBlocks))]...)
 	}
 	for i, l := range lines {
 		isEnd := strings.HasPrefix(strings.TrimSpace(l), "END")
@@ -130,9 +144,14 @@ func Perturb(lines []string, set int, d Dialect, r Rand) string {
 			for k := 0; k < len(l); k++ {
 				b.WriteByte(l[k])
 				if (l[k] == ' ' || l[k] == ',') && r.Intn(3) == 0 {
-					if r.Intn(2) == 0 {
+					switch x := r.Intn(40); {
+					case x == 0:
+						b.WriteByte('\v') // vertical tab and form feed are blanks too
+					case x == 1:
+						b.WriteByte('\f')
+					case x < 20:
 						b.WriteByte('\t')
-					} else {
+					default:
 						b.WriteString("  ")
 					}
 				}
@@ -165,7 +184,7 @@ func Perturb(lines []string, set int, d Dialect, r Rand) string {
 		out = append(out, l)
 	}
 	if set&PLastLineComment != 0 {
-		out = append(out, "; the end")
+		out = append(out, lastComments[r.Intn(len(lastComments))])
 	}
 	text := strings.Join(out, eol)
 	if set&PNoFinalNewline == 0 {
